@@ -23,14 +23,18 @@ import sys
 import traceback
 from typing import Any, Dict, List, Optional, Tuple
 
+import uuid
+
 import capstone
 import gtirb
+import gtirb_functions
 from capstone import arm64_const as A64
 from capstone import mips_const as MIPS
 from capstone import x86_const as X86
 
 import gtirb_rewriting
-from gtirb_rewriting import Constraints, InsertionContext, RewritingContext
+from gtirb_rewriting import (AllBlocksScope, AllFunctionsScope, BlockPosition, Constraints,
+                             FunctionPosition, InsertionContext, Patch, RewritingContext)
 from gtirb_rewriting.abi import ABI, CallingConventionDesc
 from gtirb_rewriting.assembler import Assembler
 from gtirb_rewriting.patches import CallPatch
@@ -60,7 +64,10 @@ class OutOfDomain(Exception):
 # module under test
 # --------------------------------------------------------------------------
 class Target:
-    def __init__(self, abi_name: str):
+    def __init__(self, abi_name: str, nblocks: int = 3, data: bool = True, funcs=()):
+        """nblocks site blocks; data: an extra block for the symbols gsym<i>;
+        funcs: (block index, has a call) -> that block is a function of its
+        own (with a call edge the function is not a leaf)."""
         isa, ff, arch, mode = TARGETS[abi_name]
         self.name = abi_name
         self.ir = gtirb.IR()
@@ -78,7 +85,7 @@ class Target:
         self.blocks: List[gtirb.CodeBlock] = []
         self.intervals: List[gtirb.ByteInterval] = []
         self.blocksym: Dict[int, gtirb.Symbol] = {}
-        for i in range(3):
+        for i in range(nblocks):
             bi = gtirb.ByteInterval(contents=nop * (16 // len(nop)), address=0x1000 + 64 * i,
                                     section=sect)
             b = gtirb.CodeBlock(offset=0, size=16, byte_interval=bi)
@@ -86,9 +93,19 @@ class Target:
             self.intervals.append(bi)
             self.blocksym[id(b)] = gtirb.Symbol(f"blk{i}", payload=b, module=self.module)
         self.block = self.blocks[0]
-        dbi = gtirb.ByteInterval(contents=b"\0" * 8, address=0x2000, section=sect)
-        self.data = gtirb.CodeBlock(offset=0, size=8, byte_interval=dbi)
+        self.data = None
+        if data:
+            dbi = gtirb.ByteInterval(contents=b"\0" * 8, address=0x2000, section=sect)
+            self.data = gtirb.CodeBlock(offset=0, size=8, byte_interval=dbi)
         self.syms: Dict[str, gtirb.Symbol] = {}
+        self.functions: List[gtirb_functions.Function] = []
+        for blk, has_call in funcs:
+            b = self.blocks[blk]
+            u = uuid.uuid4()
+            self.functions.append(gtirb_functions.Function(u, {b}, {b}, [self.blocksym[id(b)]]))
+            if has_call:
+                self.ir.cfg.add(gtirb.Edge(b, gtirb.ProxyBlock(module=self.module),
+                                           gtirb.Edge.Label(gtirb.Edge.Type.Call)))
         self.callee = gtirb.Symbol(CALLEE, payload=gtirb.ProxyBlock(module=self.module),
                                    module=self.module)
         self.abi = ABI.get(self.module)
@@ -473,17 +490,33 @@ def cb_records(calls: List[Tuple[int, Any]], ctx) -> List[dict]:
             for p, c in calls]
 
 
-def split_and_decode(t: Target, data: bytes, sx: Dict[int, str], pro_parts, epi_parts, obs: dict):
-    """data = prologue + body + epilogue as emitted; finds the two boundaries
-    from stand-alone assemblies of prologue and epilogue, decodes."""
-    pdata, _ = assemble(t, pro_parts)
-    edata, _ = assemble(t, epi_parts)
-    if not (data.startswith(pdata) and data.endswith(edata)
-            and len(pdata) + len(edata) <= len(data)):
-        raise OutOfDomain("prologue/epilogue bytes depend on their context")
-    parts, text = decode(t, data, sx, (len(pdata), len(data) - len(edata)))
+def split_and_decode(t: Target, data: bytes, sx: Dict[int, str], body_text: str, syntax,
+                     obs: dict):
+    """data = what was emitted at a site (prologue, body, epilogue).  The two
+    boundaries are found from the BODY alone (its bytes, assembled by
+    themselves, at an instruction boundary), so whatever surrounds the body -
+    including nothing at all - is decoded and judged."""
+    bdata, _ = assemble(t, [(body_text, syntax)])
+    starts = []
+    pos = 0
+    for insn in t.cs.disasm(data, 0):
+        if insn.address != pos:
+            break
+        if data[pos:pos + len(bdata)] == bdata:
+            starts.append(pos)
+        pos += insn.size
+    if len(starts) != 1:
+        raise OutOfDomain(f"the patch body occurs {len(starts)} times in the emitted code")
+    parts, text = decode(t, data, sx, (starts[0], starts[0] + len(bdata)))
     obs["pro"], obs["body"], obs["epi"] = parts
     return text
+
+
+class NopPatch(Patch):
+    """The patch of the C16 histories: given constraints, body `nop`."""
+
+    def get_asm(self, insertion_context):
+        return "nop"
 
 
 def run_direct(t: Target, case: dict, patch, constraints, tr: dict, cblog: list) -> List[dict]:
@@ -507,7 +540,7 @@ def run_direct(t: Target, case: dict, patch, constraints, tr: dict, cblog: list)
         obs["scratch"] = scratch
         obs["adjknown"] = adj is not None
         obs["adj"] = int(adj) if adj is not None else 0
-        ctx = InsertionContext(t.module, None, t.blocks[site["blk"]], int(site["off"]))
+        ctx = InsertionContext(t.module, None, t.blocks[site["blk"]], int(site.get("off", 0)))
         ctx = dataclasses.replace(ctx, stack_adjustment=adj,
                                   scratch_registers=registers.scratch_registers)
         tr["stage"] = "get_asm"
@@ -519,48 +552,52 @@ def run_direct(t: Target, case: dict, patch, constraints, tr: dict, cblog: list)
         epi_parts = [(s.code, s.x86_syntax) for s in epilogue]
         data, sx = assemble(t, pro_parts + [(body, syntax)] + epi_parts)
         tr["stage"] = "decode"
-        text = split_and_decode(t, data, sx, pro_parts, epi_parts, obs)
+        text = split_and_decode(t, data, sx, body, syntax, obs)
         if os.environ.get("VERIF_DEBUG"):
             tr["text"] = tr["text"] + text          # disassembly, for humans only
     return out
 
 
 def run_rewrite(t: Target, case: dict, patch, constraints, tr: dict, cblog: list) -> List[dict]:
-    """The ONE patch object is inserted at every site by a real
-    RewritingContext; the code found at each site afterwards is decoded."""
+    """The ONE patch object is inserted at every site in a single
+    RewritingContext.apply() (insert_at in a loop, AllBlocksScope or
+    AllFunctionsScope); the code found at each site afterwards is decoded."""
     sites = case["sites"]
-    calls: List[Tuple[Any, List[Tuple[int, Any]]]] = []
+    mode = case["mode"]
+    calls: List[Tuple[Any, Any, List[Tuple[int, Any]]]] = []
     orig = patch.get_asm
 
     def spy(ctx):
         del cblog[:]
+        text = None
         try:
-            return orig(ctx)
+            text = orig(ctx)
+            return text
         finally:
-            calls.append((ctx, list(cblog)))
+            calls.append((ctx, text, list(cblog)))
 
     patch.get_asm = spy
     tr["stage"] = "rewrite"
-    rc = RewritingContext(t.module, [])
-    for site in sites:
-        rc.insert_at(t.blocks[site["blk"]], int(site["off"]), patch)
+    rc = RewritingContext(t.module, t.functions)
+    if mode == "blocks":
+        rc.register_insert(AllBlocksScope(BlockPosition.ENTRY), patch)
+    elif mode == "funcs":
+        rc.register_insert(AllFunctionsScope(FunctionPosition.ENTRY, BlockPosition.ENTRY), patch)
+    else:
+        for site in sites:
+            rc.insert_at(t.blocks[site["blk"]], int(site.get("off", 0)), patch)
     rc.apply()
     tr["stage"] = "decode"
-    # prologue / epilogue of this constraints value (blocks outside functions
-    # are possibly-leaf code), only to find the boundaries of the body
-    registers = t.abi._allocate_patch_registers(constraints)
-    prologue, epilogue, _ = t.abi._create_prologue_and_epilogue(constraints, registers, True)
-    pro_parts = [(s.code, s.x86_syntax) for s in prologue]
-    epi_parts = [(s.code, s.x86_syntax) for s in epilogue]
     out = []
     for site in sites:
         obs = empty_obs()
         out.append(obs)
         blk = t.blocks[site["blk"]]
-        mine = [(c, cb) for c, cb in calls if c.block is blk and c.offset == int(site["off"])]
+        off = int(site.get("off", 0))
+        mine = [c for c in calls if c[0].block is blk and c[0].offset == off]
         if len(mine) != 1:
             raise OutOfDomain(f"{len(mine)} get_asm calls for site {site}")
-        ctx, cbs = mine[0]
+        ctx, body_text, cbs = mine[0]
         adj = ctx.stack_adjustment
         obs["adjknown"] = adj is not None
         obs["adj"] = int(adj) if adj is not None else 0
@@ -568,26 +605,40 @@ def run_rewrite(t: Target, case: dict, patch, constraints, tr: dict, cblog: list
         obs["cb"] = cb_records(cbs, ctx)
         bi = t.intervals[site["blk"]]
         whole = bytes(bi.contents)
-        off = int(site["off"])
         tail = 16 - off
-        if len(whole) < 16 or whole[:off] != NOPS[t.module.isa] * (off // t.nopsize):
+        nop = NOPS[t.module.isa]
+        if len(whole) < 16 or whole[:off] != nop * (off // t.nopsize) \
+                or whole[len(whole) - tail:] != nop * (tail // t.nopsize):
             raise OutOfDomain("site block not found where it was")
         data = whole[off:len(whole) - tail]
         sx = {}
         for o, e in bi.symbolic_expressions.items():
             names = [x.name for x in e.symbols]
             sx[o - off] = names[0] if len(names) == 1 else "?"
-        text = split_and_decode(t, data, sx, pro_parts, epi_parts, obs)
+        text = split_and_decode(t, data, sx, body_text, constraints.x86_syntax, obs)
         if os.environ.get("VERIF_DEBUG"):
             tr["text"] = tr["text"] + text
+    if len(calls) != len(sites):
+        raise OutOfDomain(f"{len(calls)} insertions for {len(sites)} sites")
     return out
 
 
 def run_case(case: dict) -> dict:
     kind = case["kind"]
-    rewrite = kind == "c17" and case.get("mode") == "rewrite"
+    mode = case.get("mode", "single")
+    rewrite = mode in ("rewrite", "loop", "blocks", "funcs")
     # the rewriter modifies the module: a fresh one for such a case
-    t = Target(case["abi"]) if rewrite else target(case["abi"])
+    if rewrite and kind == "c16":
+        # site blocks only; a possibly-leaf site is a block outside any function
+        # (loop) or a function without calls, the others are functions with a call
+        sites = case["sites"]
+        funcs = [(s_["blk"], not s_["leaf"]) for s_ in sites
+                 if mode != "loop" or not s_["leaf"]]
+        t = Target(case["abi"], nblocks=len(sites), data=False, funcs=funcs)
+    elif rewrite:
+        t = Target(case["abi"])
+    else:
+        t = target(case["abi"])
     tr: Dict[str, Any] = {
         "id": case["id"], "cfg": {k: v for k, v in case.items() if k != "id"},
         "exc": "", "stage": "init", "ood": False, "oodwhy": "",
@@ -603,7 +654,7 @@ def run_case(case: dict) -> dict:
             constraints = patch.constraints
         else:
             constraints = constraints_of(case)
-            patch = None
+            patch = NopPatch(constraints) if rewrite else None
         tr["declclob"] = sorted({t.canon(r) for r in constraints.clobbers_registers})
         if rewrite:
             obs = run_rewrite(t, case, patch, constraints, tr, cblog)
